@@ -62,7 +62,11 @@ def analyse(ctx, case, run, S):
 
 
 def run(ctx):
-    mirx_props.c06_prover_guards(ctx)
+    try:
+        mirx_props.c06_prover_guards(ctx)
+    except Inconclusive as e:
+        # the MIR no longer has the expected shape (anchors / symbols): Engine M is inconclusive, the rest of the check still runs
+        ctx.inconclusive.append('Engine M: %s' % e)
     parallel_cases(ctx, cases(ctx.tier), analyse)
     bounds = {'Engine M': 'all u64 values and promises, every constructible bit length; one loop iteration from an arbitrary state (that the loops visit every element is covered by the position sweep below)',
               'Engine S position sweep': 'each single violation at each position of aggregates up to m=4 (8 thorough), boundaries 2^bits-1, 2^bits, promise = value, value+1; these concrete runs are enumeration and reported as such'}
